@@ -41,6 +41,13 @@ func (k *chk) fail(key, format string, a ...any) {
 }
 func (k *chk) count(name string) { k.counts[name]++ }
 func (k *chk) cmp()              { k.fields++ }
+func (k *chk) cmpf(f string) {
+	k.fields++
+	if i := strings.IndexByte(f, ':'); i >= 0 {
+		f = f[:i]
+	}
+	k.counts["cmp:"+f]++
+}
 
 func hx(b []byte) string {
 	if len(b) > 80 {
@@ -57,7 +64,7 @@ func (k *chk) bytesField(field string, logv, wirev []byte, wirePresent bool) {
 		}
 		return
 	}
-	k.cmp()
+	k.cmpf(field)
 	if !wirePresent {
 		k.fail("mismatch:"+field+":not-on-wire", "log has %s but the wire has no such value", hx(logv))
 		return
@@ -78,7 +85,7 @@ func (k *chk) boolField(field string, logv, wirev bool) {
 		}
 		return
 	}
-	k.cmp()
+	k.cmpf(field)
 	if !wirev {
 		k.fail("mismatch:"+field+":true-but-absent", "log says true, the extension is not on the wire")
 	}
@@ -91,7 +98,7 @@ func (k *chk) u16List(field string, logv, wirev []uint16) {
 		}
 		return
 	}
-	k.cmp()
+	k.cmpf(field)
 	if fmt.Sprint(logv) != fmt.Sprint(wirev) {
 		k.fail("mismatch:"+field, "log %04x wire %04x", logv, wirev)
 	}
@@ -104,7 +111,7 @@ func (k *chk) numField(field string, logv, wirev uint64, assertZero bool) {
 		}
 		return
 	}
-	k.cmp()
+	k.cmpf(field)
 	if logv != wirev {
 		k.fail("mismatch:"+field, "log %#x wire %#x", logv, wirev)
 	}
@@ -117,7 +124,7 @@ func (k *chk) bigField(field string, logv, wirev *big.Int) {
 		}
 		return
 	}
-	k.cmp()
+	k.cmpf(field)
 	if wirev == nil || logv.Cmp(wirev) != 0 {
 		k.fail("mismatch:"+field, "log %x wire %x", logv, wirev)
 	}
@@ -197,7 +204,7 @@ func cmpClientHello(l *ztls.ClientHello, ch *clientHello, j any) *chk {
 	}
 	k.u16List("client_hello.supported_versions", lv, ch.Versions)
 	if l.SessionTicket != nil {
-		k.cmp()
+		k.cmpf("client_hello.session_ticket")
 		t := l.SessionTicket
 		if !ch.HasTicket {
 			k.fail("mismatch:client_hello.session_ticket:not-on-wire", "log has a session ticket (length %d), the ClientHello has no session_ticket extension", t.Length)
@@ -221,7 +228,7 @@ func cmpClientHello(l *ztls.ClientHello, ch *clientHello, j any) *chk {
 	}
 	// signature_algorithms: the logged pairs must be a subsequence of the wire list under the naming relation
 	if len(l.SignatureAndHashes) > 0 {
-		k.cmp()
+		k.cmpf("client_hello.signature_and_hashes")
 		wi := 0
 		for i := range l.SignatureAndHashes {
 			sn := jstr(jsonPath(j, "client_hello", "signature_and_hashes", i, "signature_algorithm"))
@@ -260,7 +267,7 @@ func cmpClientHello(l *ztls.ClientHello, ch *clientHello, j any) *chk {
 		k.count("unpopulated:client_hello.signature_and_hashes")
 	}
 	if len(l.AlpnProtocols) > 0 {
-		k.cmp()
+		k.cmpf("client_hello.alpn_protocols")
 		if strings.Join(l.AlpnProtocols, "\x00") != strings.Join(ch.ALPN, "\x00") {
 			k.fail("mismatch:client_hello.alpn_protocols", "log %q wire %q", l.AlpnProtocols, ch.ALPN)
 		}
@@ -276,7 +283,7 @@ func cmpUnknownExts(k *chk, field string, logv [][]byte, exts []extn) {
 	if len(logv) == 0 {
 		return
 	}
-	k.cmp()
+	k.cmpf(field)
 	wi := 0
 	for i, e := range logv {
 		found := false
@@ -311,7 +318,7 @@ func cmpServerHello(l *ztls.ServerHello, sh *serverHello, eeALPN string, tls13 b
 	k.boolField("server_hello.extended_master_secret", l.ExtendedMasterSecret, sh.EMS)
 	k.bytesField("server_hello.extended_random", l.ExtendedRandom, sh.ExtRandom, sh.ExtRandom != nil)
 	if l.AlpnProtocol != "" {
-		k.cmp()
+		k.cmpf("server_hello.alpn_protocol")
 		want := sh.ALPN
 		if tls13 {
 			want = eeALPN // RFC 8446: ALPN travels in EncryptedExtensions
@@ -323,7 +330,7 @@ func cmpServerHello(l *ztls.ServerHello, sh *serverHello, eeALPN string, tls13 b
 		k.count("unpopulated:server_hello.alpn_protocol")
 	}
 	if len(l.SignedCertificateTimestamps) > 0 {
-		k.cmp()
+		k.cmpf("server_hello.scts")
 		if len(l.SignedCertificateTimestamps) != len(sh.SCTs) {
 			k.fail("mismatch:server_hello.scts:count", "log has %d SCTs, wire %d", len(l.SignedCertificateTimestamps), len(sh.SCTs))
 		} else {
@@ -646,7 +653,7 @@ func checkObs(s spec, o *hsObs, serverKey crypto.PrivateKey) *obsResult {
 			}
 			k.bytesField("server_certificates.certificate.raw", lc.Certificate.Raw, first, len(wireCerts) > 0)
 			if len(lc.Chain) > 0 || len(wireCerts) > 1 {
-				k.cmp()
+				k.cmpf("server_certificates.chain")
 				if len(wireCerts) == 0 || len(lc.Chain) != len(wireCerts)-1 {
 					k.fail("mismatch:server_certificates.chain:count", "log chain has %d entries, wire has %d certificates after the leaf", len(lc.Chain), len(wireCerts)-1)
 				} else {
@@ -661,7 +668,7 @@ func checkObs(s spec, o *hsObs, serverKey crypto.PrivateKey) *obsResult {
 				if idx >= len(wireCerts) {
 					return
 				}
-				k.cmp()
+				k.cmpf(field)
 				if !bytes.Equal(parsedRaw, wireCerts[idx]) {
 					k.fail("mismatch:"+field+".parsed:other-certificate", "parsed.Raw differs from the wire certificate %d", idx)
 					return
@@ -757,7 +764,10 @@ func checkObs(s spec, o *hsObs, serverKey crypto.PrivateKey) *obsResult {
 				k.bytesField("server_key_exchange.signature.raw", sg.Raw, skx.Sig, true)
 				k.numField("server_key_exchange.signature.tls_version", uint64(sg.Version), uint64(negVers), false)
 				if leaf != nil && len(sg.Raw) > 0 {
-					k.cmp()
+					k.cmpf("server_key_exchange.signature.valid")
+					if !sg.Valid {
+						k.count("skx_signature_logged_invalid")
+					}
 					if sg.Valid != refValid {
 						k.fail("mismatch:server_key_exchange.signature.valid:"+kx, "log valid=%v, independent verification (%s) says %v", sg.Valid, verNote, refValid)
 					}
@@ -768,7 +778,7 @@ func checkObs(s spec, o *hsObs, serverKey crypto.PrivateKey) *obsResult {
 				sn := jstr(jsonPath(j, "server_key_exchange", "signature", "signature_and_hash_type", "signature_algorithm"))
 				hn := jstr(jsonPath(j, "server_key_exchange", "signature", "signature_and_hash_type", "hash_algorithm"))
 				if sg.SigHashExtension != nil {
-					k.cmp()
+					k.cmpf("server_key_exchange.signature.signature_and_hash_type")
 					if !skx.HasAlg {
 						k.fail("mismatch:server_key_exchange.signature.signature_and_hash_type:not-on-wire:"+kx, "log names {%s,%s}; before TLS 1.2 the message carries no algorithm bytes", sn, hn)
 					} else {
@@ -791,7 +801,7 @@ func checkObs(s spec, o *hsObs, serverKey crypto.PrivateKey) *obsResult {
 					k.count("unpopulated:server_key_exchange.signature.signature_and_hash_type")
 				}
 				if sg.Type != "" {
-					k.cmp()
+					k.cmpf("server_key_exchange.signature.type")
 					ok := map[string][]string{"rsa": {"rsa", "pkcs1v15", "rsapss"}, "ecdsa": {"ecdsa", "ed25519"}}[sd.Auth]
 					if skx.HasAlg {
 						if _, sns, known := wireSigNames(skx.HashB, skx.SigB); known {
@@ -944,7 +954,7 @@ func checkObs(s spec, o *hsObs, serverKey crypto.PrivateKey) *obsResult {
 	if km := o.Log.KeyMaterial; km != nil {
 		res.Sections = append(res.Sections, "key_material")
 		if ms := km.MasterSecret; ms != nil && (ms.Length != 0 || len(ms.Value) != 0) {
-			k.cmp()
+			k.cmpf("key_material.master_secret")
 			if ms.Length != len(ms.Value) {
 				k.fail("mismatch:key_material.master_secret.length", "length field %d, value has %d bytes", ms.Length, len(ms.Value))
 			}
@@ -965,7 +975,7 @@ func checkObs(s spec, o *hsObs, serverKey crypto.PrivateKey) *obsResult {
 			}
 		}
 		if ps := km.PreMasterSecret; ps != nil && (ps.Length != 0 || len(ps.Value) != 0) {
-			k.cmp()
+			k.cmpf("key_material.pre_master_secret")
 			if ps.Length != len(ps.Value) {
 				k.fail("mismatch:key_material.pre_master_secret.length", "length field %d, value has %d bytes", ps.Length, len(ps.Value))
 			}
@@ -998,7 +1008,7 @@ func checkObs(s spec, o *hsObs, serverKey crypto.PrivateKey) *obsResult {
 				}
 			}
 			if wirePMSFromRSA != nil {
-				k.cmp()
+				k.cmpf("key_material.pre_master_secret.rsa")
 				if !bytes.Equal(wirePMSFromRSA, ps.Value) {
 					k.fail("mismatch:key_material.pre_master_secret:rsa-decrypt", "log %x, decryption of the wire ClientKeyExchange with the server key gives %x", ps.Value, wirePMSFromRSA)
 				} else {
@@ -1013,7 +1023,7 @@ func checkObs(s spec, o *hsObs, serverKey crypto.PrivateKey) *obsResult {
 						pub, e2 := cv.NewPublicKey(skx.Point)
 						if e1 == nil && e2 == nil {
 							if z, err := priv.ECDH(pub); err == nil {
-								k.cmp()
+								k.cmpf("key_material.pre_master_secret.ecdh")
 								if !bytes.Equal(z, ps.Value) {
 									k.fail("mismatch:key_material.pre_master_secret:ecdh", "log %x, ECDH(logged client private, wire server share) = %x", ps.Value, z)
 								} else {
@@ -1031,7 +1041,7 @@ func checkObs(s spec, o *hsObs, serverKey crypto.PrivateKey) *obsResult {
 				}
 				if p := l.DHParams; p != nil && p.ClientPrivate != nil && skx.P != nil && skx.P.Sign() > 0 {
 					z := new(big.Int).Exp(skx.Ys, p.ClientPrivate, skx.P).Bytes()
-					k.cmp()
+					k.cmpf("key_material.pre_master_secret.dh")
 					if !bytes.Equal(z, ps.Value) {
 						k.fail("mismatch:key_material.pre_master_secret:dh", "log %x, Ys^x mod p = %x", ps.Value, z)
 					} else {
@@ -1091,7 +1101,7 @@ func checkObs(s spec, o *hsObs, serverKey crypto.PrivateKey) *obsResult {
 	// --- session ticket (RFC 5077 NewSessionTicket, TLS <= 1.2)
 	if st := o.Log.SessionTicket; st != nil && (st.Length != 0 || len(st.Value) != 0 || st.LifetimeHint != 0) {
 		res.Sections = append(res.Sections, "session_ticket")
-		k.cmp()
+		k.cmpf("session_ticket")
 		var nst *nstWire
 		if !tls13 {
 			if ms := w.find(netx.BtoA, hsNewSessionTicket); len(ms) > 0 {
